@@ -1,5 +1,5 @@
 import Lean.Data.Json
-import Lp.Reader
+import Lp.ReaderR
 open Lean Reader Py
 
 def hexVal (c : Char) : UInt8 :=
@@ -39,8 +39,10 @@ partial def loop (h : IO.FS.Stream) (files : Std.HashMap String Bytes) : IO Unit
       match fa with
       | none => IO.println "bad-op farg"
       | some fa =>
-        if !accepted nf fa then IO.println "{\"status\":\"refused\"}" else
-        match readBox (files.getD name []) off fa with
+        let repaired := (j.getObjValAs? Bool "repaired").toOption.getD false
+        let res := if repaired then (if off < 0 then none else ReaderR.readR (files.getD name []) off.toNat nf fa)
+                   else (if !accepted nf fa then none else readBox (files.getD name []) off fa)
+        match res with
         | none => IO.println "{\"status\":\"refused\"}"
         | some o => IO.println (Json.mkObj [("status", "ok"), ("shape", toJson o.shape), ("data", toJson (hex (o.comps.flatten)))]).compress
       loop h files
